@@ -325,6 +325,7 @@ class PeerConnection:
         """
         self._direction: int = peer_direction
         self._interrupt_fileno: int = interrupt_fileno
+        self._last_connect: int = 0
         self._last_msg: int = 0
         self._last_read: int = 0
         # timestamp of last DWR sent, cleared after DWA
@@ -387,6 +388,7 @@ class PeerConnection:
         go through a transition of CONNECTING - CONNECTED - READY and will not
         handle any messages until the READY state has been reached."""
 
+        self.reset_last_connect()
         self.reset_last_message()
         self.reset_last_read()
         self._read_thread.start()
@@ -435,6 +437,11 @@ class PeerConnection:
         send and receive diameter messages, this property affects mostly only
         the CER/CEA procedure."""
         return self._direction == PEER_SEND
+
+    @property
+    def connected_since(self) -> int:
+        """Seconds since the connection socket became connected."""
+        return int(time.time()) - self._last_connect
 
     @property
     def is_waiting_for_dwa(self):
@@ -507,6 +514,13 @@ class PeerConnection:
     def remove_out_bytes(self, sent_bytes: int):
         """Remove a given amount of bytes from outgoing buffer."""
         self._write_buffer = self._write_buffer[sent_bytes:]
+
+    def reset_last_connect(self):
+        """Mark that the connection socket has become connected.
+
+        Starts the timer that the CER/CEA timeouts are measured from.
+        """
+        self._last_connect = int(time.time())
 
     def reset_last_message(self):
         """Mark that a full diameter message has been received.
